@@ -241,6 +241,8 @@ def extra_checks(rng, tier, g, info):
     """watch-only wallets assembled with the class constructor from a parsed extended public key whose node flag is the
     parser's default (mainnet) while the wallet is a testnet wallet, and the reverse: every address kind, at several
     sub-paths, must be the full wallet's address of the wallet's network"""
+    from .c13 import soak as _soak13
+    yield from _soak13(rng, tier, info)
     n = 0
     for _ in range(2 if tier == "quick" else 30):
         e = bytes(rng.getrandbits(8) for _ in range(16)).hex()
